@@ -1,4 +1,5 @@
 import Driver.C04
+import Driver.C01_Assume
 import Driver.C11_Nest
 import Driver.C18T
 import Driver.C03Asm
@@ -44,6 +45,8 @@ partial def loop (h : IO.FS.Stream) (out : IO.FS.Stream) (f : String → String)
   loop h out f
 
 def modes : List (String × (String → String)) := [
+  ("c08ops", C08.handleOps),
+  ("c01a", C01A.handle),
   ("c11nest", C11Nest.handle),
   ("c18t", C18T.handle),
   ("c03bin", C03Asm.handleBin),
